@@ -27,8 +27,8 @@
 #ifndef RING_FRAMES
 #define RING_FRAMES 4
 #endif
-#ifndef CL_ROUNDS
-#define CL_ROUNDS 2
+#ifndef CL_MODE
+#define CL_MODE 1
 #endif
 #define RING_BYTES (RING_FRAMES * FRAME_BYTES + 8)
 
@@ -125,11 +125,9 @@ client_map(struct AcquireRuntime* rt, int expect_ok)
     }
 }
 static void
-client_unmap(struct AcquireRuntime* rt)
+client_unmap_k(struct AcquireRuntime* rt, size_t k)
 {
-    /* consume a whole number of frames, possibly fewer than mapped */
-    size_t k = ND(uint8_t);
-    VASSUME(k <= 2 * NMAX);
+    /* consume k whole frames (or everything mapped if fewer) */
     size_t bytes = k * FRAME_BYTES;
     if (bytes > cl_len) bytes = cl_len;
     if (acquire_unmap_read(rt, 0, bytes) != AcquireStatus_Ok) ++cl_fail;
@@ -180,22 +178,30 @@ main(void)
 #else
         bool_t src_early = ND(bool_t);
 #endif
-        if (src_early) verif_run_pending(&RT->video[0].source.thread);
 #if PROG == 1
 #ifdef EXCL_C06_FIRST_MAP
         /* known finding C06-first-map-sees-earlier-data assumed away: the client's FIRST map ever
          * happens before the first frame of the first acquisition is written (it registers at an
          * empty ring); every other client program is explored from there */
-        if (a == 0 && !src_early) { client_map(rt, 1); if (cl_mapped) client_unmap(rt); }
-        else if (a == 0) VASSUME(0);
+        if (a == 0) { client_map(rt, 1); if (cl_mapped) client_unmap_k(rt, 2 * NMAX); } /* before the source thread runs */
 #endif
-        /* client: up to two map/unmap rounds while the acquisition is live */
-        for (int r = 0; r < CL_ROUNDS; ++r) {
-            if (ND(bool_t)) {
-                if (!cl_mapped) client_map(rt, 1);
-                if (cl_mapped && ND(bool_t)) client_unmap(rt); /* or keep holding the region */
-            }
-        }
+#endif
+        if (src_early) verif_run_pending(&RT->video[0].source.thread);
+#if PROG == 1
+        /* client behaviour while the acquisition is live (CL_MODE, fixed per harness instance):
+         *  0 none   1 map, unmap everything   2 map and keep holding across stop/abort
+         *  3 map, consume ONE frame, map again, unmap everything (partial consumption) */
+#if CL_MODE == 1
+        client_map(rt, 1);
+        if (cl_mapped) client_unmap_k(rt, 2 * NMAX);
+#elif CL_MODE == 2
+        client_map(rt, 1);
+#elif CL_MODE == 3
+        client_map(rt, 1);
+        if (cl_mapped) client_unmap_k(rt, 1);
+        client_map(rt, 1);
+        if (cl_mapped) client_unmap_k(rt, 2 * NMAX);
+#endif
         holding_across_stop = cl_mapped;
 #endif
 #ifdef FIX_ABORT
